@@ -123,6 +123,7 @@ def obs_unchanged_but_fresh(x):
     if not (z3.eq(h0.llen, h.llen) and z3.eq(h0.litem, h.litem)):
         cs += [ForAll([l], Implies(h0.lalloc(l), h.llen(l) == h0.llen(l)), patterns=[h.llen(l)]), ForAll([l, i], Implies(h0.lalloc(l), h.litem(l, i) == h0.litem(l, i)), patterns=[h.litem(l, i)])]
     cs.append(obs_dicts_unchanged(x))
+    cs.append(alloc_monotone(x))
     return And(*cs)
 
 
